@@ -36,6 +36,8 @@ CLAIMED = {
          "Every arm of the numeric record comparison (3 representations x 6 operators), the time-range membership/overlap predicates and the block range-index pruning tables are compared with their mathematical meaning on every ordering of their operands, which is complete because these predicates touch their operands only through comparisons; the dictionary-block search is shown to examine every word. Literal typing, wildcard translation, boolean composition and where-stage agreement are not decided."),
  "C03": ("§3 C03", "static analysis: truth-table soundness check of range-index pruning over all orderings, truth-table implication check of the fast-path gate formulas over all valuations, backward slice of the gate's enclosure argument, dominance ORDER of the rotation hand-over",
          "Shows that block pruning accepts every block that can contain a match for each operator (also after refactoring into a generic helper), that full-enclosure means what its name says, that the SST and agile-tree fast paths can only be chosen for match-all queries over fully enclosed segments without non-ingest statistics, and that hand-over between open and rotated segments keeps every segment visible. Equality of results across layouts, bloom/PQMR contents and parallel merge are not decided."),
+ "C04": ("§3 C04", "static analysis: forward dataflow of tagged-union tag knowledge per access path over the SSA CFG (TAGUNION), truth-table implication check of the SST gate formula, writer/reader version-byte agreement",
+         "For every function that tests the tag of a NumTypeEnclosure (the running sum/min/max representation) the check shows on all paths that each member is read only where the tag is known to select it, so merges between integer and float partial aggregates cannot drop the accumulated part; the pre-computed statistics fast path is shown to be gated on the conditions under which it is exact. Numeric results, bucket boundaries and per-measure slot bookkeeping are not decided."),
 }
 
 NOT_APPLICABLE = {
